@@ -118,6 +118,18 @@ theorem C07_main (p : Policy) (s : Setup) (e e' : EState) (a : Args)
   obtain ⟨_, h1, _⟩ := bind_ok h
   exact validateMutualClose_ok p s e a hf h1
 
+/-- The destination conjunct for the upfront case, spelled out: a fixed upfront shutdown script does not
+    exempt the holder output from the wallet / allowlist test **at signing time** (`o.canSpend`,
+    `o.allowlisted` are the wallet's answers when the close is requested, e.g. after the script was removed
+    from the allowlist).  A model that skipped the test for the upfront script could not prove this. -/
+theorem C07_upfront_checked_at_signing (p : Policy) (s : Setup) (e e' : EState) (a : Args) (u : Nat)
+    (hf : NonPermissive p) (hu : s.upfront = some u) (hpos : 0 < a.toHolder)
+    (h : signClose2 p s e a = .ok e') :
+    ∃ o, a.holderScript = some o ∧ o.sid = u ∧ (o.canSpend = true ∨ o.allowlisted = true) := by
+  obtain ⟨_, _, _, _, _, _, _, _, hdest, hup⟩ := C07_main p s e e' a hf h
+  obtain ⟨o, ho, hsid⟩ := hup u hu hpos
+  exact ⟨o, ho, hsid, hdest o ho⟩
+
 /-- **C07 (both entry points)**: whatever phase 1 (`decode_and_validate_mutual_close_tx`) accepts, phase 2
     (`validate_mutual_close_tx`) accepts for the chosen assignment. -/
 theorem C07_both_entry (p : Policy) (s : Setup) (e : EState) (outs : List Out) (canon : Bool) (a : Args)
